@@ -69,11 +69,13 @@ MUT_KINDS = ("b58addr", "segwit", "wif", "xkey", "sp")
 # ----------------------------------------------------------------------- plan
 def plan(tier: str, seed: int) -> list[dict]:
     q = tier == "quick"
-    bud = {"_budget_s": 100 if q else 1000, "_timeout_s": 600 if q else 2700}
+    bud = {"_budget_s": 85 if q else 650, "_timeout_s": 600 if q else 2400}
     specs: list[dict] = []
     # (kind, shards, base strings per shard)
-    table = [("b58addr", 2, 90), ("segwit", 2, 70), ("wif", 2, 60), ("xkey", 5, 16), ("sp", 3, 14)] if q else \
-            [("b58addr", 3, 900), ("segwit", 3, 700), ("wif", 2, 700), ("xkey", 5, 200), ("sp", 3, 180)]
+    table = [("xkey", 4, 40), ("segwit", 3, 110), ("wif", 2, 150), ("sp", 2, 70), ("b58addr", 2, 300)] if q else \
+            [("xkey", 6, 260), ("segwit", 4, 800), ("wif", 3, 700), ("sp", 4, 220), ("b58addr", 3, 1400)]
+    for i in range(2 if q else 4):
+        specs.append({"name": f"inverse-{i}", "fn": "shard_inverse", "part": i, "n": 110 if q else 700, **bud})
     for kind, shards, n in table:
         for i in range(shards):
             specs.append({"name": f"mut-{kind}-{i}", "fn": "shard_mutate", "kind": kind, "part": i, "parts": shards,
@@ -82,8 +84,6 @@ def plan(tier: str, seed: int) -> list[dict]:
     specs.append({"name": "semantic", "fn": "shard_semantic", "reps": 1 if q else 8, **bud})
     specs.append({"name": "codec-b58", "fn": "shard_b58codec", "n": 40 if q else 500, **bud})
     specs.append({"name": "codec-bech32", "fn": "shard_bech32codec", "n": 400 if q else 6000, **bud})
-    for i in range(2 if q else 4):
-        specs.append({"name": f"inverse-{i}", "fn": "shard_inverse", "part": i, "n": 60 if q else 500, **bud})
     specs.append({"name": "ripemd160", "fn": "shard_ripemd", "maxlen": 200 if q else 1400, **bud})
     specs.append({"name": "bip21", "fn": "shard_bip21", "n": 1500 if q else 20000, **bud})
     return specs
@@ -545,7 +545,7 @@ def judge(j: J, kind: str, s, feature: str = "") -> bool | None:
         else:
             ro = outcome(reencode, j, kind, st, got, net, extra)
             if ro[0] == "raise":
-                how = ":witness-program-read-as-p2ms" if kind == "anyaddr" and p2ms_lookalike(got[0]) else ""
+                how = ":p2ms-lookalike" if kind == "anyaddr" and p2ms_lookalike(got[0]) else ""
                 ctx.violation(f"{kind}:reencode-raised{how}", f"{raw!r} decoded but writing it back raised {ro[1]!r}", case)
             elif ro[1] is not None:
                 ctx.mon(f"reencode:{kind}")
@@ -1062,9 +1062,18 @@ def shard_bech32codec(ctx: Ctx) -> None:
 
 # ------------------------------------------------------------- inverse maps
 def p2ms_lookalike(spk: bytes) -> bool:
-    """A witness program whose last two bytes read OP_n OP_CHECKMULTISIG with version <= n (what a p2ms test looks at first)."""
-    return len(spk) >= 37 and spk[-1] == 0xAE and 0x51 <= spk[0] <= 0x60 and spk[0] <= spk[-2] <= 0x60 and \
-        ra.witness_program(spk) is not None
+    """Starts with OP_m, ends with OP_n OP_CHECKMULTISIG (m <= n), long enough for the multisig test to start reading
+    keys - and the bytes in between are not n whole pushes (so it is not a multisig script)."""
+    if not (len(spk) >= 37 and spk[-1] == 0xAE and 0x51 <= spk[0] <= 0x60 and spk[0] <= spk[-2] <= 0x60):
+        return False
+    pos, end = 1, len(spk) - 2
+    for _ in range(spk[-2] - 0x50):
+        if pos >= end or spk[pos] >= 0xFD:
+            return True
+        pos += 1 + spk[pos]
+        if pos > end:
+            return True
+    return pos != end
 
 
 def _h160(b: bytes) -> bytes:
@@ -1148,7 +1157,7 @@ def shard_inverse(ctx: Ctx) -> None:
                 if typ is None and lt in addressable:
                     ctx.violation(f"inverse:non-addressable-classified:{klass.split(':')[0]}", f"type_and_payload({spk.hex()}) = {lt!r}; the reference finds no destination", {"script": spk})
             elif typ is not None:
-                tag = "inverse:classification-raised" + (":witness-program-read-as-p2ms" if p2ms_lookalike(spk) else "")
+                tag = "inverse:classification-raised" + (":p2ms-lookalike" if p2ms_lookalike(spk) else "")
                 ctx.violation(tag, f"type_and_payload({spk.hex()}) raised {o[1]!r}", {"script": spk})
             for net in ra.NETWORK_NAMES:
                 want = ra.address_of_script(nd, spk, net)
@@ -1156,7 +1165,11 @@ def shard_inverse(ctx: Ctx) -> None:
                 o = outcome(L.spk.address, spk, net)
                 ctx.mon("inverse:address")
                 if o[0] == "raise":
-                    tag = "inverse:address-raised" + (":witness-program-read-as-p2ms" if p2ms_lookalike(spk) else "")
+                    if not want and is_lib_exc(o[1]):
+                        ctx.stat("inverse:non-addressable-script-raised" + (":p2ms-lookalike" if p2ms_lookalike(spk) else ""))
+                        ctx.bulk("inv:non-addressable", 1)  # refused rather than '': still no address
+                        continue
+                    tag = "inverse:address-raised" + (":p2ms-lookalike" if p2ms_lookalike(spk) else "")
                     ctx.violation(tag, f"address({spk.hex()}, {net}) raised {o[1]!r}; reference {want!r}", case)
                     continue
                 if o[1] != want:
